@@ -98,7 +98,8 @@ FloatToStr(a) ==   \* strconv.FormatFloat(a, 'f', -1, 64) for halves and quarter
     LET sgn == IF a[2] < 0 THEN <<45>> ELSE <<>>
         ip == Digits(Abs(a[2]) \div a[3])
         r == Abs(a[2]) % a[3]
-    IN CASE a[3] = 1 -> MkS(sgn \o ip)
+    IN CASE a[2] = 0 -> AnyOf("s")                \* "0" or "-0": the model has no signed zero
+         [] a[3] = 1 -> MkS(sgn \o ip)
          [] a[3] = 2 -> MkS(sgn \o ip \o <<46, 53>>)
          [] a[3] = 4 -> MkS(sgn \o ip \o (IF r = 1 THEN <<46, 50, 53>> ELSE <<46, 55, 53>>))
          [] OTHER -> AnyOf("s")
@@ -220,7 +221,9 @@ ToFloat(v) ==
     CASE IsAny(v) -> AnyOf("f")
       [] v[1] = "i" -> <<"f", v[2], 1>>
       [] v[1] = "f" -> v
-      [] v[1] = "s" -> IF IsSignedInt(v[2]) THEN MkF(SignedIntVal(v[2]), 1) ELSE Err
+      [] v[1] = "s" -> IF IsSignedInt(v[2]) THEN MkF(SignedIntVal(v[2]), 1)
+                       ELSE IF \E i \in DOMAIN v[2] : IsDigit(v[2][i]) THEN AnyOf("f")   \* decimal point / exponent syntax is not modelled
+                       ELSE Err
       [] v[1] = "b" -> <<"f", IF v[2] THEN 1 ELSE 0, 1>>
       [] OTHER -> Err
 ToBool(v) ==
@@ -269,7 +272,7 @@ Pure(name, a) ==
             ELSE IF (NumCmp(a[1], a[2]) <= 0) = (name = "min") THEN a[1] ELSE a[2]
       [] name = "if" ->
             IF Len(a) # 3 \/ Tag(a[1]) # "b" \/ Tag(a[2]) # Tag(a[3]) \/ Tag(a[2]) \notin {"f", "i", "s", "b", "r", "t", "d"} THEN Err
-            ELSE IF IsAny(a[1]) THEN AnyOf(Tag(a[2]))
+            ELSE IF SomeAny(a) THEN AnyOf(Tag(a[2]))      \* (an undecided argument may also be an error)
             ELSE IF a[1][2] THEN a[2] ELSE a[3]
       [] name = "strLength" -> IF ~AllTags(a, <<"s">>) THEN Err ELSE IF SomeAny(a) THEN AnyOf("i") ELSE MkI(Len(a[1][2]))
       [] name = "strSubstring" ->      \* str[start:stop]
@@ -314,7 +317,7 @@ Call(name, a, fs) ==
                  IN <<MkF(hi[2] * lo[3] - lo[2] * hi[3], hi[3] * lo[3]), [fs EXCEPT !.sp = <<lo, hi>>]>>
       [] name = "sigma" ->
             IF ~AllTags(a, <<"f">>) THEN <<Err, fs>>
-            ELSE <<IF fs.sg = <<>> THEN <<"f", 0, 1>> ELSE AnyOf("f"), [fs EXCEPT !.sg = Append(@, a[1])]>>
+            ELSE <<IF fs.sg = <<>> /\ ~IsAny(a[1]) THEN <<"f", 0, 1>> ELSE AnyOf("f"), [fs EXCEPT !.sg = Append(@, a[1])]>>
       [] OTHER -> <<Pure(name, a), fs>>
 
 (* ---------------- evaluation ---------------- *)
@@ -347,7 +350,7 @@ Eval(n, p, sc, st, bk) ==
                         ELSE IF v = MissingV THEN False
                         ELSE IF Tag(v) \in {"b", "s", "i", "f"} THEN True ELSE AnyOf("b"), st>>
                  ELSE LET r == Eval(n[3][1], p \o <<1>>, sc, st, bk) IN
-                      <<IF IsErr(r[1]) \/ Tag(r[1]) \notin {"b", "s", "i", "f"} THEN AnyOf("b") ELSE True, r[2]>>
+                      <<IF IsErr(r[1]) \/ IsAny(r[1]) \/ Tag(r[1]) \notin {"b", "s", "i", "f"} THEN AnyOf("b") ELSE True, r[2]>>
             ELSE LET a == EvalArgs(n[3], 1, p, sc, st, bk, <<>>) IN
                  IF ~a.ok THEN <<Err, a.st>>
                  ELSE LET c == Call(n[2], a.vs, a.st[bk]) IN <<c[1], [a.st EXCEPT ![bk] = c[2]]>>
